@@ -24,7 +24,7 @@ def _position(repo, typ, mode="isolated", etype="futures"):
     strat = Obj("Strategy", name="strategy", attrs={"leverage": A("lev")}, open_world=True)
     qty = {"long": A("P"), "short": -A("P"), "close": num(0)}[typ]
     return W.obj_of(repo, POSITION, "Position", "position", {"qty": qty, "previous_qty": num(0), "entry_price": A("E"),
-                                                            "current_price": A("cp"), "exchange": ex, "symbol": SYM, "strategy": strat,
+                                                            "current_price": A("cp"), "exchange": ex, "exchange_name": "Sandbox", "symbol": SYM, "strategy": strat,
                                                             "_liquidation_price": None})
 
 
@@ -68,6 +68,47 @@ def check_formulas(repo, rep):
             if not (ok1 and ok2 and all(e > 0 for e in ends)):
                 rep.violation(rid, f"between|{typ}", f"liquidation price not strictly between entry and bankruptcy ({typ}): liq-bkr={d1!r}, E-liq={d2!r}")
             rep.instance(rid, f"between|{typ}", {"liq-bkr": repr(d1), "E-liq": repr(d2), "linear form at lev=1,125": [str(e) for e in ends]})
+    # the two prices are functions of the CURRENT entry price: read, change the position (add to it, reduce it, close and reopen), read again
+    for typ, sg in (("long", 1), ("short", -1)):
+        for hist in ("increase", "reduce", "close-open"):
+            def mk(dec, typ=typ, sg=sg, hist=hist):
+                it = Interp(repo, stubs=W.base_stubs(), samples=[{"P": F(2), "E": F(100), "lev": F(10), "cp": F(101), "q2": F(1), "p2": F(90), "q3": F(3), "p3": F(70)}],
+                            nonneg={"P", "E", "lev", "cp", "q2", "p2", "q3", "p3"}, decisions=dec)
+                pos = _position(repo, typ)
+
+                def go(it):
+                    first = (it.getattr(pos, "liquidation_price"), it.getattr(pos, "bankruptcy_price"))
+                    if hist == "increase":
+                        it.call(it.getattr(pos, "_mutating_increase"), [R.const(sg) * A("q2"), A("p2")], {})
+                    elif hist == "reduce":
+                        it.call(it.getattr(pos, "_mutating_reduce"), [R.const(-sg) * A("q2"), A("p2")], {})
+                    else:
+                        it.call(it.getattr(pos, "_mutating_close"), [A("p2")], {})
+                        it.call(it.getattr(pos, "_mutating_open"), [R.const(sg) * A("q3"), A("p3")], {})
+                    return first, (it.getattr(pos, "liquidation_price"), it.getattr(pos, "bankruptcy_price")), pos.attrs.get("entry_price")
+                return it, go
+            try:
+                outs = explore(mk, 32)
+            except NotInFragment as e:
+                rep.undecided_item(f"liquidation price after {hist} ({typ}): {e}")
+                continue
+            for out in outs:
+                if out.kind != "return":
+                    rep.undecided_item(f"liquidation price after {hist} ({typ}): the mutation raises {out.value!r}")
+                    continue
+                _first, (liq2, bkr2), entry = out.value
+                r = one / A("lev")
+                if not isinstance(entry, R):
+                    rep.undecided_item(f"liquidation price after {hist} ({typ}): entry price {entry!r}")
+                    continue
+                want_l = entry * (one - R.const(sg) * r + R.const(sg) * k)
+                want_b = entry * (one - R.const(sg) * r)
+                if not (isinstance(liq2, R) and liq2.same(want_l)):
+                    rep.violation(rid, f"liquidation_price|{typ}|after-{hist}", f"Position.liquidation_price ({typ}, isolated) read after the position was changed ({hist}; it had been "
+                                  f"read before the change) = {liq2!r}, expected {want_l!r} - the price of the CURRENT entry price {entry!r}")
+                if not (isinstance(bkr2, R) and bkr2.same(want_b)):
+                    rep.violation(rid, f"bankruptcy_price|{typ}|after-{hist}", f"Position.bankruptcy_price ({typ}) after {hist} = {bkr2!r}, expected {want_b!r}")
+                rep.instance(rid, f"history|{typ}|{hist}|{out.conds}", {"entry": repr(entry), "liquidation_price": repr(liq2)})
     for typ, mode, etype in (("long", "cross", "futures"), ("long", "spot", "spot"), ("close", "isolated", "futures")):
         def mk(dec):
             it = Interp(repo, stubs=W.base_stubs(), samples=[{"P": F(2), "E": F(100), "lev": F(10), "cp": F(101)}], nonneg={"P", "E", "lev"}, decisions=dec)
@@ -77,7 +118,7 @@ def check_formulas(repo, rep):
             if out.kind != "return" or out.value is not NAN:
                 rep.violation(rid, f"liquidation_price|{mode}|{typ}", f"liquidation_price for mode={mode}, position={typ} is {out.value!r}, expected NaN (never liquidated)")
             rep.instance(rid, f"nan|{mode}|{typ}")
-    rep.floor(rid, 8)
+    rep.floor(rid, 13)
 
 
 def check_trigger(repo, rep):
